@@ -13,8 +13,8 @@ package db
 //@ define bmapI(id) = gmap("bmap", id)
 //@ define bhasI(id, k) = has(gmap("bmap", id), strOf(k))
 //@ define bvalI(id, k) = gmap("bmap", id)[strOf(k)]
-//@ define bsameI(id) = (forall qs_ string :: has(gmap("bmap", id), qs_) == old(has(gmap("bmap", id), qs_)) && gmap("bmap", id)[qs_] == old(gmap("bmap", id)[qs_]))
-//@ define bsameExceptI(id, k) = (forall qs_ string :: qs_ != strOf(k) ==> has(gmap("bmap", id), qs_) == old(has(gmap("bmap", id), qs_)) && gmap("bmap", id)[qs_] == old(gmap("bmap", id)[qs_]))
+//@ define bsameI(id) = sameMapExcept(gmap("bmap", id))
+//@ define bsameExceptI(id, k) = sameMapExcept(gmap("bmap", id), strOf(k))
 //@ define bid(b) = ghost("bkt", b)
 //@ define bmap(b) = bmapI(ghost("bkt", b))
 //@ define bhas(b, k) = bhasI(ghost("bkt", b), k)
